@@ -25,12 +25,12 @@ OpName == <<"activate", "trigger", "wait", "wait_for", "waitActivation", "wait_f
 Threads == 1..Len(prog)
 NoEv == [t |-> 0, k |-> "init", o |-> "", v |-> 0, w |-> 0]
 E(t, k, o, v, w) == [t |-> t, k |-> k, o |-> o, v |-> v, w |-> w]
-Ops == [t \in Threads |-> th[t].op]
+Ops == [t \in Threads |-> IF th[t].gave THEN th[t].op + 10 ELSE th[t].op]     \* + 10: a timed wait after its time-out
 
 Init0(p, a) == [prog |-> p, act0 |-> a,
                 sh |-> [act |-> a, trig |-> FALSE, tl |-> 0, al |-> 0,
                         cvt |-> [t \in 1..Len(p) |-> 0], cva |-> [t \in 1..Len(p) |-> 0]],
-                th |-> [t \in 1..Len(p) |-> [pc |-> "idle", op |-> 0, opi |-> 1, res |-> 0, rs |-> FALSE]],
+                th |-> [t \in 1..Len(p) |-> [pc |-> "idle", op |-> 0, opi |-> 1, res |-> 0, rs |-> FALSE, gave |-> FALSE]],
                 lin |-> LinInit(a, 1..Len(p)), ev |-> NoEv]
 InitWith(p, a) == LET s == Init0(p, a) IN
     prog = s.prog /\ act0 = s.act0 /\ sh = s.sh /\ th = s.th /\ lin = s.lin /\ ev = s.ev
@@ -43,6 +43,11 @@ UC == UNCHANGED <<prog, act0, lin>>
 Do(t, from, guard, sh2, to, e) ==
     /\ th[t].pc = from /\ guard
     /\ sh' = sh2 /\ th' = [th EXCEPT ![t].pc = to] /\ ev' = e /\ UC
+\* the time-out of a timed wait: the thread gives up; from here on its answer may be 0
+DoG(t, from, guard, sh2, to, e) ==
+    /\ th[t].pc = from /\ guard
+    /\ sh' = sh2 /\ th' = [th EXCEPT ![t].pc = to, ![t].gave = TRUE] /\ ev' = e
+    /\ lin' = LinGiveUp(lin, [Ops EXCEPT ![t] = th[t].op + 10]) /\ UNCHANGED <<prog, act0>>
 \* same, also setting the result
 DoR(t, from, guard, sh2, to, r, e) ==
     /\ th[t].pc = from /\ guard
@@ -55,7 +60,7 @@ Call(t) ==
     /\ th[t].pc = "idle" /\ th[t].opi <= Len(prog[t])
     /\ \E j \in 1..Len(prog[t][th[t].opi]) :
          LET o == prog[t][th[t].opi][j] IN
-         /\ th' = [th EXCEPT ![t].op = o, ![t].pc = FirstPc(o), ![t].rs = FALSE, ![t].res = 0]
+         /\ th' = [th EXCEPT ![t].op = o, ![t].pc = FirstPc(o), ![t].rs = FALSE, ![t].res = 0, ![t].gave = FALSE]
          /\ lin' = LinCall(lin, t, [Ops EXCEPT ![t] = o])
          /\ ev' = E(t, "call", OpName[o + 1], 0, 0)
     /\ UNCHANGED <<prog, act0, sh>>
@@ -107,7 +112,8 @@ WaitT(t) ==
     \/ DoR(t, "w4", TRUE, sh, IF sh.trig THEN "w9" ELSE "w5", 1, LdG(t))
     \/ Do(t, "w5", TRUE, [sh EXCEPT !.tl = 0, !.cvt[t] = 1], "w6", E(t, "cvwait", "cvt", B(Timed(t)), 0))
     \/ Do(t, "w6", sh.cvt[t] = 2, [sh EXCEPT !.cvt[t] = 0], "w7", E(t, "cvwake", "cvt", 0, 0))
-    \/ Do(t, "w6", sh.cvt[t] = 1 /\ Timed(t) /\ Timeouts, [sh EXCEPT !.cvt[t] = 0], "w7t", E(t, "cvwake", "cvt", 2, 0))
+    \* (a waiter that was already notified may still come back with a time-out: the deadline passed before it woke up)
+    \/ DoG(t, "w6", sh.cvt[t] \in {1, 2} /\ Timed(t) /\ Timeouts, [sh EXCEPT !.cvt[t] = 0], "w7t", E(t, "cvwake", "cvt", 2, 0))
     \/ Do(t, "w7", sh.tl = 0, [sh EXCEPT !.tl = t], "w4", E(t, "mlock", "tlock", 0, 0))
     \/ Do(t, "w7t", sh.tl = 0, [sh EXCEPT !.tl = t], "w8", E(t, "mlock", "tlock", 0, 0))
     \/ DoR(t, "w8", TRUE, sh, "w9", B(sh.trig), LdG(t))
@@ -122,7 +128,7 @@ WaitA(t) ==
     \/ DoR(t, "x4", TRUE, sh, IF sh.act THEN "x9" ELSE "x5", B(th[t].op = 5), LdA(t))
     \/ Do(t, "x5", TRUE, [sh EXCEPT !.al = 0, !.cva[t] = 1], "x6", E(t, "cvwait", "cva", B(Timed(t)), 0))
     \/ Do(t, "x6", sh.cva[t] = 2, [sh EXCEPT !.cva[t] = 0], "x7", E(t, "cvwake", "cva", 0, 0))
-    \/ Do(t, "x6", sh.cva[t] = 1 /\ Timed(t) /\ Timeouts, [sh EXCEPT !.cva[t] = 0], "x7t", E(t, "cvwake", "cva", 2, 0))
+    \/ DoG(t, "x6", sh.cva[t] \in {1, 2} /\ Timed(t) /\ Timeouts, [sh EXCEPT !.cva[t] = 0], "x7t", E(t, "cvwake", "cva", 2, 0))
     \/ Do(t, "x7", sh.al = 0, [sh EXCEPT !.al = t], "x4", E(t, "mlock", "alock", 0, 0))
     \/ Do(t, "x7t", sh.al = 0, [sh EXCEPT !.al = t], "x8", E(t, "mlock", "alock", 0, 0))
     \/ DoR(t, "x8", TRUE, sh, "x9", B(sh.act), LdA(t))
